@@ -37,7 +37,7 @@ ASSUMPTIONS = ['gfortran 12 -O0 with run-time checks is the reference semantics'
                'generated programs are well-defined by construction (original must compile and run clean, else the case is discarded as inconclusive)',
                'real outputs compared to relative 1e-11',
                'recursion, sequence association and procedure pointers are not generated']
-BUDGET_S = {'quick': 1300, 'thorough': 3000}  # DEV
+BUDGET_S = {'quick': 400, 'thorough': 3000}
 CASE_TIMEOUT_S = 300
 
 MODES = ['marked', 'internal', 'functions', 'elemental', 'stmtfunc', 'constants', 'composed', 'composed']
